@@ -104,3 +104,120 @@ theorem safe_preserves (orc : Oracle) (prog : List Stmt) (env : Env) (h0 : Heap)
   exact hold
 
 end Yadism.Heap
+
+namespace Yadism.Heap
+
+/-- more names known fresh can only help -/
+theorem safeFrom_mono : ∀ (prog : List Stmt) (F G : List String), (∀ v, v ∈ F → v ∈ G) →
+    safeFrom F prog = true → safeFrom G prog = true := by
+  intro prog
+  induction prog with
+  | nil => intro _ _ _ _; rfl
+  | cons s rest ih =>
+    intro F G hFG h
+    cases s with
+    | copy dst src =>
+      simp only [safeFrom] at h ⊢
+      exact ih (dst :: F) (dst :: G) (by
+        intro v hv
+        rcases List.mem_cons.mp hv with h1 | h1
+        · exact List.mem_cons.mpr (Or.inl h1)
+        · exact List.mem_cons.mpr (Or.inr (hFG v h1))) h
+    | write base =>
+      simp only [safeFrom, Bool.and_eq_true] at h ⊢
+      refine ⟨?_, ih F G hFG h.2⟩
+      have : base ∈ F := by simpa using h.1
+      simpa using hFG base this
+    | writeNested base => simp [safeFrom] at h
+    | alias dst =>
+      simp only [safeFrom] at h ⊢
+      exact ih _ _ (by
+        intro v hv
+        have hv' := List.mem_filter.mp hv
+        exact List.mem_filter.mpr ⟨hFG v hv'.1, hv'.2⟩) h
+
+theorem freshAfter_mono : ∀ (prog : List Stmt) (F G : List String), (∀ v, v ∈ F → v ∈ G) →
+    ∀ v, v ∈ freshAfter F prog → v ∈ freshAfter G prog := by
+  intro prog
+  induction prog with
+  | nil => intro F G h v hv; exact h v hv
+  | cons s rest ih =>
+    intro F G hFG v hv
+    cases s with
+    | copy dst src =>
+      simp only [freshAfter] at hv ⊢
+      exact ih (dst :: F) (dst :: G) (by
+        intro w hw
+        rcases List.mem_cons.mp hw with h1 | h1
+        · exact List.mem_cons.mpr (Or.inl h1)
+        · exact List.mem_cons.mpr (Or.inr (hFG w h1))) v hv
+    | write base => simp only [freshAfter] at hv ⊢; exact ih F G hFG v hv
+    | writeNested base => simp only [freshAfter] at hv ⊢; exact ih F G hFG v hv
+    | alias dst =>
+      simp only [freshAfter] at hv ⊢
+      exact ih _ _ (by
+        intro w hw
+        have hw' := List.mem_filter.mp hw
+        exact List.mem_filter.mpr ⟨hFG w hw'.1, hw'.2⟩) v hv
+
+theorem safeFrom_append : ∀ (p q : List Stmt) (F : List String),
+    safeFrom F (p ++ q) = (safeFrom F p && safeFrom (freshAfter F p) q) := by
+  intro p
+  induction p with
+  | nil => intro q F; simp [safeFrom, freshAfter]
+  | cons s rest ih =>
+    intro q F
+    cases s with
+    | copy dst src => simp only [List.cons_append, safeFrom, freshAfter]; exact ih q _
+    | write base => simp only [List.cons_append, safeFrom, freshAfter, ih q F, Bool.and_assoc]
+    | writeNested base => simp [safeFrom]
+    | alias dst => simp only [List.cons_append, safeFrom, freshAfter]; exact ih q _
+
+theorem freshAfter_append : ∀ (p q : List Stmt) (F : List String),
+    freshAfter F (p ++ q) = freshAfter (freshAfter F p) q := by
+  intro p
+  induction p with
+  | nil => intro q F; rfl
+  | cons s rest ih =>
+    intro q F
+    cases s <;> simp only [List.cons_append, freshAfter] <;> exact ih q _
+
+/-- any sequence of calls of methods that each keep the invariant fresh set is safe from it -/
+theorem calls_safe (I : List String) (methods : List (List Stmt))
+    (hm : ∀ m ∈ methods, safeFrom I m = true ∧ ∀ v ∈ I, v ∈ freshAfter I m) :
+    ∀ calls : List (List Stmt), (∀ c ∈ calls, c ∈ methods) →
+      ∀ F, (∀ v ∈ I, v ∈ F) → safeFrom F calls.flatten = true := by
+  intro calls
+  induction calls with
+  | nil => intro _ F _; simp [safeFrom]
+  | cons c rest ih =>
+    intro hc F hF
+    have hcm := hm c (hc c (List.mem_cons_self))
+    rw [List.flatten_cons, safeFrom_append]
+    have h1 : safeFrom F c = true := safeFrom_mono c I F hF hcm.1
+    have h2 : ∀ v ∈ I, v ∈ freshAfter F c := fun v hv => freshAfter_mono c I F hF v (hcm.2 v hv)
+    rw [h1, Bool.true_and]
+    exact ih (fun d hd => hc d (List.mem_cons_of_mem _ hd)) _ h2
+
+/-- **an object's whole life leaves the pre-existing objects untouched**: constructor, then any
+sequence of method calls (any order, any number), for every oracle -/
+theorem lifecycle_preserves (orc : Oracle) (init : List Stmt) (methods : List (List Stmt))
+    (hs : lifecycleSafe init methods = true) (calls : List (List Stmt)) (hc : ∀ c ∈ calls, c ∈ methods)
+    (env : Env) (h0 : Heap) :
+    ∀ l, l < h0.length → (exec orc (init ++ calls.flatten) (env, h0)).2[l]? = h0[l]? := by
+  apply safe_preserves
+  unfold lifecycleSafe at hs
+  simp only [Bool.and_eq_true, List.all_eq_true] at hs
+  unfold safe
+  rw [safeFrom_append]
+  have h1 : safeFrom [] init = true := hs.1
+  rw [h1, Bool.true_and]
+  apply calls_safe (freshAfter [] init) methods _ calls hc _ (fun v hv => hv)
+  intro m hm
+  have := hs.2 m hm
+  refine ⟨this.1, ?_⟩
+  intro v hv
+  have h3 := this.2 v hv
+  simpa using h3
+
+end Yadism.Heap
